@@ -109,7 +109,7 @@ fn cli_binding(ctx: &mut Ctx, p: &Prog) {
 
 pub fn run(ctx: &mut Ctx) {
     let menu = bc::const_menu();
-    let k = 2;
+    let k = if ctx.quick() { 2 } else { 3 };
     ctx.stage(&format!("U-BC constant sequences (k<={}) and their neighbours", k));
     let total = bc::count_sequences(k);
     for rank in 0..total {
